@@ -87,6 +87,19 @@ Definition wmap_batched (b : nat) (rows cols : Z) (H W K : nat) (s c : Q) :=
   let pts := map redv (pixel_coordinates H W K s c kn) in
   map (fun t => sc (cell_weight_batched rows cols (chunks b pts) (Z.of_nat t)))
       (seq 0 (Z.to_nat (rows * cols))).
+(* the weight map AFTER the KDE: the model's symmetric reflect filter (kernel weights = the floats
+   scipy uses, as exact fractions) along axis 0 then axis 1; intermediate arrays tabulated *)
+Definition tab (R C : nat) (a : nat -> nat -> Q) : nat -> nat -> Q :=
+  let l := map (fun t => Qred (a (t / C)%nat (t mod C)%nat)) (seq 0 (R * C)) in
+  fun r c => nth (r * C + c) l 0.
+Definition kdemap (k0 : Q) (ks : list Q) (rows cols : Z) (H W K : nat) (s c : Q) :=
+  let kn := fun r j => redv (init_knot rows cols H W K s c r j) in
+  let pts := map redv (pixel_coordinates H W K s c kn) in
+  let R := Z.to_nat rows in let C := Z.to_nat cols in
+  let a0 := tab R C (weight_map2 rows cols pts) in
+  let a1 := tab R C (filter_axis0 k0 ks R a0) in
+  let a2 := filter_axis1 k0 ks C a1 in
+  map (fun t => sc (a2 (t / C)%nat (t mod C)%nat)) (seq 0 (R * C)).
 (* running reference of the measuring loop (one Fourier coefficient) *)
 Definition refmean (x0 : Q) (xs : list Q) : Z := sc (ref_after x0 xs).
 """
@@ -194,7 +207,7 @@ def gen_fixed_cases(ctx: Ctx):
     r = ctx.rng
     cases = []
     shapes = [(6, 6), (7, 7), (8, 12), (12, 8), (9, 14), (5, 10), (11, 6), (10, 16), (7, 4), (12, 12), (4, 9)]
-    n_fixed = ctx.budget(16, 120)
+    n_fixed = ctx.budget(30, 160)
     for i in range(n_fixed):
         H, W = shapes[i % len(shapes)] if i < 2 * len(shapes) else (r.randint(4, 14), r.randint(4, 14))
         a0 = r.choice(SPECIAL_ANGLES) if r.random() < 0.3 else r.uniform(0.0, 360.0)
@@ -424,7 +437,9 @@ def warp_option_findings(case, dc, imgs, i):
     bad, extras = [], {}
     tag = "image %d of a %dx%d stack, %r deg, pad_fraction %r, %d knot(s)" % (i, H, W, case["angles"][i],
                                                                                  case["pad"], dc.knots[i].shape[-1])
-    combos = [(2, 0.0), (int(g.choice([1, 3, 4])), float(g.choice([0.25, 0.5, 1.0, 2.0]))),
+    up0 = [2, 1.5, 3][int(g.integers(0, 3))]      # this one (bare splat) is also compared with the model
+    extras["up0"] = up0
+    combos = [(up0, 0.0), (int(g.choice([1, 3, 4])), float(g.choice([0.25, 0.5, 1.0, 2.0]))),
               (float(g.choice([1.5, 2.5, 0.5])), float(g.choice([0.0, 0.5, 1.0]))), (None, None)]
     for up, ks in combos:
         _, w = it.warp_image(imgs[i], dc.knots[i], kde_sigma=ks, upsample_factor=up)
@@ -439,7 +454,7 @@ def warp_option_findings(case, dc, imgs, i):
             bad.append(("weight-sum-warp-options",
                         "warp_image(kde_sigma=%r, upsample_factor=%r) of %s: the weight map sums to %.9g, not to the "
                         "%d image pixels" % (ks, up, tag, ws, H * W)))
-        if (up, ks) == (2, 0.0):
+        if (up, ks) == (up0, 0.0) and "w_up2" not in extras:
             extras["w_up2"] = np.array(w, dtype=float)
     oshape = (dc.shape[1] + int(g.integers(1, 4)), dc.shape[2] + int(g.integers(0, 3)))
     _, w = it.warp_image(imgs[i], dc.knots[i], output_shape=oshape, pad_value=0.25)
@@ -660,6 +675,21 @@ def wmap_up_expr(shape, up, H, W, K, fast):
                                                        cnat(H), cnat(W), cnat(K), cq(fr(fast[0])), cq(fr(fast[1])))
 
 
+def gauss_kernel(sigma, truncate=4.0):
+    """the kernel scipy.ndimage.gaussian_filter1d builds (order 0): centre weight and one side"""
+    radius = int(truncate * float(sigma) + 0.5)
+    x = np.arange(-radius, radius + 1)
+    phi = np.exp(-0.5 / (float(sigma) * float(sigma)) * x ** 2)
+    phi = phi / phi.sum()
+    return float(phi[radius]), [float(v) for v in phi[radius + 1:]]
+
+
+def kdemap_expr(sigma, shape, H, W, K, fast):
+    k0, ks = gauss_kernel(sigma)
+    return "kdemap %s [%s] %s %s %s %s %s %s %s" % (cq(fr(k0)), "; ".join(cq(fr(v)) for v in ks), cz(shape[1]), cz(shape[2]),
+                                                    cnat(H), cnat(W), cnat(K), cq(fr(fast[0])), cq(fr(fast[1])))
+
+
 def wmap_batched_expr(b, shape, H, W, K, fast):
     return "wmap_batched %s %s %s %s %s %s %s %s" % (cnat(b), cz(shape[1]), cz(shape[2]), cnat(H), cnat(W), cnat(K),
                                                      cq(fr(fast[0])), cq(fr(fast[1])))
@@ -718,10 +748,22 @@ def check_geometry(ctx: Ctx):
         H, W, K, n = case["H"], case["W"], case["K"], case["n"]
         obs_by_K = {}
         dcs = {}
-        for k in (1, 2, 3, 4):
-            dc, imgs, obs = observe(case, K=k)
-            obs_by_K[k] = obs
-            dcs[k] = (dc, imgs)
+        try:
+            for k in (1, 2, 3, 4):
+                dc, imgs, obs = observe(case, K=k)
+                obs_by_K[k] = obs
+                dcs[k] = (dc, imgs)
+        except (TypeError, ValueError, IndexError) as e:
+            if case.get("outside"):
+                ctx.dist("geom/angle_domain=outside[0,360)-rejected")
+                continue            # outside the quantified domain: a rejection is fine
+            n_or += 1
+            ctx.violation("in-domain-input-rejected",
+                          "a stack inside the property's domain (%s, input form %s, angles as %s, pad_value %r) is "
+                          "rejected with %s: %s" % (_short(case), case.get("form"), case.get("angle_type"),
+                                                    case["pad_value"], type(e).__name__, str(e)[:200]),
+                          {"kind": "geom", "case": case})
+            continue
         obs = obs_by_K[K]
         shape = obs["shape"]
         shp = "square" if H == W else "nonsquare"
@@ -772,6 +814,11 @@ def check_geometry(ctx: Ctx):
             w0 = splat_weights(*dcs[K], i_m)
             exprs.append(wmap_expr(shape, H, W, K, obs["images"][i_m]["fast"]))
             todo.append(("wmap", case, obs, i_m, w0, oracle_failed_K))
+        if full and ci % 3 == 0 and case["sigma"] <= 1.0 and shape[1] * shape[2] <= 80:
+            # the KDE itself in the model (symmetric reflect filter with scipy's kernel weights) vs weights_warped
+            exprs.append(kdemap_expr(case["sigma"], shape, H, W, K, obs["images"][i_m]["fast"]))
+            todo.append(("kdemap", case, obs, i_m, None, oracle_failed_K))
+            ctx.dist("kde-model/sigma=%r" % case["sigma"])
         if pad_is_exact(case["pad"]):
             exprs.append("(cdim %s %s, cdim %s %s)" % (cnat(H), cq(fr(case["pad"])), cnat(W), cq(fr(case["pad"]))))
             todo.append(("cdim", case, obs, 0, None, False))
@@ -783,9 +830,10 @@ def check_geometry(ctx: Ctx):
                 n_or += 1
                 ctx.violation(key, what, {"kind": "geom", "case": case, "image": i_m})
             ctx.dist("warp/options-checked")
-            if full and 4 * shape[1] * shape[2] <= 400 and "w_up2" in extras and ci % 2 == 0:
-                exprs.append(wmap_up_expr(shape, 2, H, W, K, obs["images"][i_m]["fast"]))
-                todo.append(("wmap_up", case, obs, i_m, extras["w_up2"], oracle_failed_K))
+            if full and extras["up0"] ** 2 * shape[1] * shape[2] <= 440 and "w_up2" in extras and ci % 2 == 0:
+                exprs.append(wmap_up_expr(shape, extras["up0"], H, W, K, obs["images"][i_m]["fast"]))
+                todo.append(("wmap_up", case, obs, i_m, (extras["up0"], extras["w_up2"]), oracle_failed_K))
+                ctx.dist("warp/model-upsample=%s" % extras["up0"])
             if full and "w_batched" in extras and ci % 2 == 1:
                 exprs.append(wmap_batched_expr(extras["batch"], shape, H, W, K, obs["images"][i_m]["fast"]))
                 todo.append(("wmap_batched", case, obs, i_m, extras["w_batched"], oracle_failed_K))
@@ -895,14 +943,23 @@ def check_geometry(ctx: Ctx):
                     msg = ("weights-filtered-correspondence",
                            "weights_warped differs from gaussian_filter(model weight map) by %.3g" % dfw)
         elif kind in ("wmap_up", "wmap_batched"):
-            shp2 = up_shape(shape[1:], 2) if kind == "wmap_up" else shape[1:]
+            if kind == "wmap_up":
+                up0, aux = aux
+            shp2 = up_shape(shape[1:], up0) if kind == "wmap_up" else shape[1:]
             mw = np.array([unscale(z) for z in v]).reshape(shp2[0], shp2[1])
             dw = float(np.abs(mw - aux).max())
             if not dw <= W_ATOL:
                 msg = ("weights-upsampled-correspondence" if kind == "wmap_up" else "weights-batched-correspondence",
                        "weight map (%s) differs from the model by %.3g"
-                       % ("warp_image(upsample_factor=2, kde_sigma=0)" if kind == "wmap_up"
+                       % ("warp_image(upsample_factor=%s, kde_sigma=0)" % up0 if kind == "wmap_up"
                           else "bilinear_kde(max_batch_size=..., kde_sigma=0)", dw))
+        elif kind == "kdemap":
+            mw = np.array([unscale(z) for z in v]).reshape(shape[1], shape[2])
+            dfw = float(np.abs(mw - obs["images"][i_m]["weights"]).max())
+            if not dfw <= 4 * W_ATOL:
+                msg = ("weights-kde-model-correspondence",
+                       "weights_warped (kde_sigma %r) differs from the model's reflect-boundary symmetric filter of the "
+                       "model weight map by %.3g" % (case["sigma"], dfw))
         elif kind == "curved":
             rows_sel, cpx, cxa, cya = aux
             dcmax = 0.0
@@ -1037,8 +1094,12 @@ def replay(ctx: Ctx, path):
     case = rp.get("case")
     if rp.get("kind") == "geom":
         obs_by_K = {}
-        for k in (1, 2, 3, 4):
-            _, _, obs_by_K[k] = observe(case, K=k)
+        try:
+            for k in (1, 2, 3, 4):
+                _, _, obs_by_K[k] = observe(case, K=k)
+        except (TypeError, ValueError, IndexError) as e:
+            print("case:", _short(case), "is rejected with %s: %s" % (type(e).__name__, e))
+            return 0 if case.get("outside") else 1
         bad = []
         for k in (1, 2, 3, 4):
             bad += oracle_geometry(case, obs_by_K[k], k)
